@@ -772,13 +772,16 @@ type judgedReq struct {
 	srcPort int
 }
 
+func newRelayState(w *World, c *Cfg) *relayState {
+	return &relayState{w: w, c: c, entries: flattenRoutes(c.Routes), learned: map[string][]learnedAt{},
+		seenBranches: map[string]string{}, routeAnswers: map[string]string{}, done: map[string]*judgedReq{}, connOf: map[string]int{},
+		burstPrior: map[string][]learnedAt{}, burstTaught: map[string]bool{}}
+}
+
 func execRelay(t *testing.T, p *Plan) *Result {
 	r := &Result{}
 	w := runWorld(t, p, func(w *World) {
-		st := &relayState{w: w, c: &p.Cfg, entries: flattenRoutes(p.Cfg.Routes), learned: map[string][]learnedAt{},
-			seenBranches: map[string]string{}, routeAnswers: map[string]string{}}
-		st.done = map[string]*judgedReq{}
-		st.connOf = map[string]int{}
+		st := newRelayState(w, &p.Cfg)
 		var pending []*Op
 		for i := range p.Ops {
 			op := &p.Ops[i]
